@@ -39,20 +39,23 @@ def Mode.strict : Mode := ⟨true, true⟩
 inductive Key where
   | str (s : String)
   | int (i : Int)
+  | other (tag : Nat)      -- any other hashable key: None (0), False (1), True (2)
   deriving DecidableEq, Repr
 
 /-- Python truthiness of a route: `0` and `''` are falsy (the pre-fix `if route:`). -/
 def Key.falsy : Key → Bool
   | .str s => s == ""
   | .int i => i == 0
+  | .other tag => tag ≤ 1
 
 inductive KeyTy where
-  | str | int
+  | str | int | any          -- Dict[str, ·], Dict[int, ·], Dict[Any, ·]
   deriving DecidableEq, Repr
 
 def KeyTy.admits : KeyTy → Key → Bool
   | .str, .str _ => true
   | .int, .int _ => true
+  | .any, _ => true
   | _, _ => false
 
 /-- declared types of the fragment -/
@@ -279,7 +282,7 @@ def knownItems (fields : List (String × Ty)) (kvs : List (Key × Val)) : List (
   dedupFst (kvs.filterMap fun (kv : Key × Val) =>
     match kv.1 with
     | .str s => (fields.lookup s).map fun t => (s, t, kv.2)
-    | .int _ => none)
+    | _ => none)
 
 /-- data_first_parse (base.py:437-470): the *data* keys in input order; then defaults -/
 def parseDF (Q : Quirks) (rec : Parser) (c : Ctx) (fields : List (String × Ty)) (kvs : List (Key × Val)) :
@@ -292,7 +295,7 @@ def parseDF (Q : Quirks) (rec : Parser) (c : Ctx) (fields : List (String × Ty))
 def isKnown (fields : List (String × Ty)) (kv : Key × Val) : Bool :=
   match kv.1 with
   | .str s => (fields.lookup s).isSome
-  | .int _ => false
+  | _ => false
 
 def hasUnknown (fields : List (String × Ty)) (kvs : List (Key × Val)) : Bool := kvs.any fun kv => !isKnown fields kv
 
